@@ -43,15 +43,21 @@ structure Auth where
   sig : Bytes
   deriving DecidableEq, Repr
 
-/-- validity of compressed BLS points (`bls.PublicKeyFromBytes`, `bls.SignatureFromBytes`):
-a parameter of the model. -/
+/-- group membership of compressed BLS points — parameters of the model, but an explicit
+precondition that the codec checks:
+* `validPk b`: `b` decompresses to a point of the prime-order subgroup G1 that is not the
+  point at infinity (`bls.PublicKeyFromBytes` = Uncompress + blst `KeyValidate`);
+* `validSig b`: `b` decompresses to a point of G2 (`bls.SignatureFromBytes` = Uncompress +
+  `SigValidate(false)`).
+The tie evaluates both predicates on blst directly (not through crypto/bls), so an unmarshaler
+that admits an on-curve point outside the subgroup diverges from the model. -/
 structure Group where
-  blsPk : Bytes → Bool
-  blsSig : Bytes → Bool
+  validPk : Bytes → Bool
+  validSig : Bytes → Bool
 
 /-- only `UnmarshalBLS` decodes points (public key first, then signature) -/
 def pointsOK (G : Group) : Scheme → Bytes → Bytes → Bool
-  | .bls, pk, sig => G.blsPk pk && G.blsSig sig
+  | .bls, pk, sig => G.validPk pk && G.validSig sig
   | _, _, _ => true
 
 def WF (G : Group) (a : Auth) : Prop :=
